@@ -30,6 +30,15 @@ if REPO not in sys.path:
 def _gen(key):
     """worker: generate the VCs of one function (SMT-LIB text)"""
     t0 = time.time()
+    import signal
+
+    def _too_long(signum, frame):
+        raise TimeoutError('VC generation exceeded %d s' % GEN_LIMIT)
+    try:
+        signal.signal(signal.SIGALRM, _too_long)
+        signal.alarm(GEN_LIMIT)
+    except (ValueError, AttributeError):
+        pass
     try:
         from contracts import build_world
         from pyvc.spec import Verifier
@@ -48,10 +57,18 @@ def _gen(key):
         return {'key': key, 'status': res.status, 'reason': res.reason, 'paths': res.paths, 'vcs': vcs,
                 'file': fs.path if fs else None, 'span': list(fs.span) if fs else None, 'sha256': fs.sha if fs else None,
                 'inlined': res.inlined, 'notes': res.notes, 'gen_s': round(time.time() - t0, 2)}
+    except TimeoutError as e:   # a function whose paths cannot be enumerated in the budget: undecided, never a violation
+        return {'key': key, 'status': 'out_of_reach', 'reason': str(e), 'paths': 0, 'vcs': [], 'file': None, 'span': None,
+                'sha256': None, 'inlined': [], 'notes': [], 'gen_s': round(time.time() - t0, 2)}
     except Exception as e:   # engine crash: reported as out of reach, never as a violation
         return {'key': key, 'status': 'engine_error', 'reason': '%s: %s' % (type(e).__name__, e),
                 'trace': traceback.format_exc()[-1500:], 'paths': 0, 'vcs': [], 'file': None, 'span': None,
                 'sha256': None, 'inlined': [], 'notes': [], 'gen_s': round(time.time() - t0, 2)}
+    finally:
+        try:
+            signal.alarm(0)
+        except (ValueError, AttributeError):
+            pass
 
 
 def _solve(job):
@@ -62,16 +79,20 @@ def _solve(job):
     return r
 
 
-RETRY_TIMEOUT = 120
+RETRY_TIMEOUT = 30
+GEN_LIMIT = int(os.environ.get('VERIF_GEN_LIMIT', '600'))     # seconds of VC generation per function
 
 
-def run_contract_obligations(keys, tier, nproc):
+def run_contract_obligations(keys, tier, nproc, kinds=None):
     timeout = 10 if tier == 'quick' else 60
     ctx = mp.get_context('fork')
     t0 = time.time()
     with ctx.Pool(min(nproc, max(1, len(keys)))) as pool:
         gens = pool.map(_gen, keys, chunksize=1)
     t_gen = time.time() - t0
+    if kinds is not None:
+        for g in gens:
+            g['vcs'] = [vc for vc in g['vcs'] if vc['kind'] in kinds]
     jobs = []
     for g in gens:
         for vc in g['vcs']:
@@ -87,8 +108,8 @@ def run_contract_obligations(keys, tier, nproc):
     again = [(n, s2, RETRY_TIMEOUT) for (n, s2, _) in jobs
              if by_name[n]['status'] not in ('unsat', 'sat') and base_name(n) in base]
     if again:
-        with ctx.Pool(min(nproc, 8)) as pool:
-            for s in pool.map(_solve, again[:64], chunksize=1):
+        with ctx.Pool(nproc) as pool:
+            for s in pool.map(_solve, again[:32], chunksize=1):
                 if s['status'] in ('unsat', 'sat'):
                     by_name[s['name']] = s
     t_solve = time.time() - t1
@@ -124,6 +145,9 @@ def main():
     from contracts import build_world
     world = build_world()
     keys = sorted(set(world.property_funcs.get(pid, [])) | set(prop.get('extra_functions', [])))
+    frames_only = bool(prop.get('frames_of'))
+    for other in prop.get('frames_of', []):
+        keys = sorted(set(keys) | set(world.property_funcs.get(other, [])))
     rep = report.Report(pid, tier, seed, prop)
 
     # ---- B drivers are started first and run beside the solvers (collected below)
@@ -133,7 +157,8 @@ def main():
             running.append((bname, start_bounded(bname, pid, tier, seed, scratch)))
 
     # ---- P: contract obligations
-    gens, sols, t_gen, t_solve = run_contract_obligations(keys, tier, max(2, args.nproc - len(running))) if keys else ([], {}, 0, 0)
+    gens, sols, t_gen, t_solve = run_contract_obligations(keys, tier, max(2, args.nproc - len(running)),
+                                                          kinds=('frame', 'frame_global') if frames_only else None) if keys else ([], {}, 0, 0)
     rep.add_contract_results(gens, sols, t_gen, t_solve, world)
 
     # ---- G: ground obligations
